@@ -85,6 +85,35 @@ CLAIMS.update({
                 technique='bounded contract checking against RDKit'),
 })
 
+CLAIMS.update({
+    'C13': dict(level='other', engine='frames',
+                text='Engine F proves cache coherence by frames over the real AST of every covered mutator: each write makes the cached keys whose derived '
+                     'read-set contains the location stale, flushes clear them, every read inside a mutator and every exit must see no stale key (one '
+                     'obligation per mutator x cache key, per read site, per kept key); the fix_stereo retry-loop lemma it relies on is proved by engine P; '
+                     'rollback restores every state slot and every constructor binds every slot (T). Histories against an independently rebuilt '
+                     'molecule are the bounded part. Level "other": the frame analysis is a sound-by-construction abstract interpretation with listed '
+                     'assumed frame facts, not an SMT proof; four mutators are outside its reach (listed in the evidence).',
+                note='Trusted: frames/engine.py (abstract interpreter), attribute-name based location classification, the assumed frame facts in '
+                     'contracts/cache.py (order-8 class preserved by aromatisation/resonance, labels preserved by renaming/union, terminal hydrogens '
+                     'lie on no ring, changed-set guards). Hydrogen recalculation is covered by the bounded histories only.',
+                technique='typestate / frame analysis with ghost write-sets over the AST (+ SMT lemma, + bounded edit histories)'),
+    'C03': dict(level='other', engine='pysym',
+                text='The raises-contract of the tokenizer is proved for every input string by finite-state induction: the real loop body is run on a '
+                     'representative of every reachable abstract state x character class until closure (one obligation per pair). What the text denotes is '
+                     'decided by the bounded stand-in: exhaustive token strings, grammar-generated strings, the corpus and single-edit corruptions against '
+                     'a reference reader written from the OpenSMILES subset and RDKit.',
+                note='Trusted: the tokenizer abstraction (justified by a syntactic dependency check), oracles/o03_refsmiles.py, RDKit as second opinion. '
+                     '29 reader defect families are recorded as known findings.',
+                technique='inductive invariant by abstract-state fixpoint over the real loop body (+ bounded differential reading)'),
+    'C07': dict(level='exploration', engine='bounded', text=B_NOTE + 'mapping multisets against an exhaustive reference enumerator (scope, automorphism filter, '
+                'operators), structural contract of _compile_query on every small pattern, lazy_product against itertools.product.',
+                note='Trusted: oracles/o07_ref.py (cross-checked against the brute-force enumerator every run). Completeness of the DFS matcher for all graph '
+                     'pairs is not within reach of contracts here (DESIGN 5).', technique='bounded contract checking against an exhaustive reference enumerator'),
+    'C16': dict(level='exploration', engine='bounded', text=B_NOTE + 'frame post-condition wrapped around BaseReactor._patcher, _get_deleted against a reachability '
+                'oracle on every labelled small graph, identity templates, reactant order / numbering independence.',
+                note='Trusted: oracles/o16_deleted.py; C01 gap filter for canonical-string comparisons.', technique='bounded frame-contract checking'),
+})
+
 NOT_BUILT = 'check under construction in this session - not claimed until its command exists and passes on the unchanged tree'
 
 NOT_APPLICABLE = {}   # pid -> reason (a property that contracts genuinely cannot decide)
